@@ -261,6 +261,33 @@ def run_window(c, out):
                 ins = bool(np.all(p >= 0) and np.all(p < shape))
                 fill0 = (not ins) and r[tuple(bad)] == 0
                 out.fail("window:" + ("fill_value_not_volume_mean" if not ins else "voxel_not_from_requested_position") + ("_zero" if fill0 else ""), f"window voxel {bad.tolist()} (volume position {p.tolist()}): {r[tuple(bad)]!r} vs {exp[tuple(bad)]!r}")
+    # the same window written to a file (single precision, same axis order) and the documented enforce_shape form
+    # (result of the volume's shape: the part of the window inside the volume keeps its voxels, everything else the mean)
+    if ok and c["seed"] % 3 == 0:
+        from vlib import oracle as _o
+        out.label("window:output_file")
+        okf, rf = call(out, "extract_subvolume(output_file)", lambda: cryomap.extract_subvolume(vol, ctr.copy(), sz, output_file="win.mrc"))
+        if okf:
+            out.check(np.array_equal(rf, r), "window:result_changes_with_output_file", "")
+            try:
+                fl = _o.mrc_read("win.mrc")
+                out.check(tuple(fl["dims"]) == tuple(size) and np.array_equal(fl["data"], r.astype(np.float32)), "window:output_file_does_not_hold_the_window", f"{fl['dims']}")
+            except Exception as e:
+                out.fail("window:output_file_unreadable", repr(e))
+    lo_, hi_ = np.clip(start, 0, shape), np.clip(start + size, 0, shape)
+    oke, re_ = call(out, "extract_subvolume(enforce_shape)", lambda: cryomap.extract_subvolume(vol, ctr.copy(), sz, enforce_shape=True))
+    if oke:
+        want_e = np.full(shape, mean)
+        if np.all(hi_ > lo_):
+            want_e[lo_[0]:hi_[0], lo_[1]:hi_[1], lo_[2]:hi_[2]] = vol[lo_[0]:hi_[0], lo_[1]:hi_[1], lo_[2]:hi_[2]]
+        out.check(tuple(re_.shape) == tuple(shape) and np.allclose(re_, want_e, rtol=0, atol=1e-12), "window:enforce_shape_not_volume_with_mean_outside_window", f"{re_.shape}")
+    # crop without a position is the window around the volume centre floor(N/2)
+    okc, cc = call(out, "crop(default centre)", lambda: cryomap.crop(vol, list(size)))
+    if okc:
+        st_c = np.array(shape) // 2 - np.array(size) // 2
+        lo_c, hi_c = np.clip(st_c, 0, shape), np.clip(st_c + size, 0, shape)
+        want_c = vol[lo_c[0]:hi_c[0], lo_c[1]:hi_c[1], lo_c[2]:hi_c[2]]
+        out.check(cc.shape == want_c.shape and np.array_equal(cc, want_c), "crop:default_not_centred_window", f"{cc.shape} vs {want_c.shape}")
     # crop: the same window clipped to the volume
     lo = np.clip(start, 0, shape)
     hi = np.clip(start + size, 0, shape)
